@@ -29,7 +29,10 @@ META = {
     "property_id": "C12",
     "technique": "Lean 4 proof: pinned-table inclusion and context-free derivability of the core grammar from the "
     "extracted SLY productions (general over grammars, induction on G's derivations), dispatch/arity theorems on a "
-    "hand-written model; differential correspondence and acceptance oracle on the real parser",
+    "hand-written model; a model of the SLY lexers (generic re engine, rules translated from the working tree, "
+    "action functions: losslessness, progress, totality by induction) and of SLY's LALR driver over the extracted "
+    "action/goto tables (accepted => derivable, right-most derivation, completeness on flat geometry); differential "
+    "correspondence (cards, token streams, reduction traces) and acceptance oracle on the real parser",
     "design_ref": "6 C12",
 }
 
